@@ -34,19 +34,19 @@ import (
 const c15Bound = 2000
 
 type c15Case struct {
-	Shape    string   `json:"shape"`
-	Prog     string   `json:"prog"`
-	Input    string   `json:"input,omitempty"`
-	Vars     []string `json:"vars,omitempty"`
-	Ctx      string   `json:"ctx"`                // live | pre | timeout | never | bg | todo | none (= Execute) | shared:A | shared:B (one context object per session)
-	Buffered bool     `json:"buffered,omitempty"` // Config.Output is a bufio.Writer
-	MustErr  bool     `json:"must_err"`           // the program cannot end on its own: the call must return the ctx error
-	Prefix   string   `json:"prefix,omitempty"`   // output that was printed before the cancellation
-	MaxWall  float64  `json:"max_wall_s,omitempty"` // only for shapes that wait for a `sleep 5` child
-	ArgsFile string   `json:"args_file,omitempty"`       // file operand (content: "f1\nf2\n") …
-	ArgsN    int      `json:"args_file_repeated,omitempty"` // … given this many times
-	TornOutput bool   `json:"output_fails_once_cancelled,omitempty"` // Config.Output returns io.ErrClosedPipe once the context is cancelled (a connection torn down with the request)
-	TornInput  bool   `json:"stdin_fails_once_cancelled,omitempty"`  // Config.Stdin yields one line per Read and returns io.ErrClosedPipe once the context is cancelled
+	Shape      string   `json:"shape"`
+	Prog       string   `json:"prog"`
+	Input      string   `json:"input,omitempty"`
+	Vars       []string `json:"vars,omitempty"`
+	Ctx        string   `json:"ctx"`                                   // live | pre | timeout | never | bg | todo | none (= Execute) | shared:A | shared:B (one context object per session)
+	Buffered   bool     `json:"buffered,omitempty"`                    // Config.Output is a bufio.Writer
+	MustErr    bool     `json:"must_err"`                              // the program cannot end on its own: the call must return the ctx error
+	Prefix     string   `json:"prefix,omitempty"`                      // output that was printed before the cancellation
+	MaxWall    float64  `json:"max_wall_s,omitempty"`                  // only for shapes that wait for a `sleep 5` child
+	ArgsFile   string   `json:"args_file,omitempty"`                   // file operand (content: "f1\nf2\n") …
+	ArgsN      int      `json:"args_file_repeated,omitempty"`          // … given this many times
+	TornOutput bool     `json:"output_fails_once_cancelled,omitempty"` // Config.Output returns io.ErrClosedPipe once the context is cancelled (a connection torn down with the request)
+	TornInput  bool     `json:"stdin_fails_once_cancelled,omitempty"`  // Config.Stdin yields one line per Read and returns io.ErrClosedPipe once the context is cancelled
 }
 
 type c15Res struct {
@@ -309,7 +309,15 @@ func runC15(c *vh.Ctx) {
 		"function, main rules over many records, END, pending buffered output, system(sleep), print | sleep, sleep | getline, numbered " +
 		"output) x point of cancellation (script calls cancel() at a random iteration / record; cancel_later(ms) while a child runs; " +
 		"context cancelled before the call; 30 ms deadline) x plain or bufio output; never-cancelled runs: 7 programs x 5 inputs x " +
-		"{Execute, ExecuteContext(Background), ExecuteContext(live)}; non-trivial = the context was cancelled while the program was running")
+		"{Execute, ExecuteContext(Background), ExecuteContext(live)}; bodies that leave every record / iteration through next, nextfile, " +
+		"break out of for-in, return (1-12 tick() per body) cancelled at record K; waiting for commands: 12 waiting statements (system, " +
+		"cmd | getline var/$0/loop, close / fflush / blocked write of print | cmd; commands sleep, cat, read, trap TERM) x 6 places " +
+		"(BEGIN, function in for-in, rule, END, ...) x 8 kinds of Config.Stdin (*os.File /dev/null, *os.File pipe kept open, bytes.Reader, " +
+		"strings.Reader, io.Pipe never written, reader yielding a byte per 50 ms / per 4 s, failing reader) x {WithTimeout, WithCancel + " +
+		"timer, pre-cancelled, deadline in the past}, each run under a watchdog that releases the reader; never-cancelled == Execute for 12 " +
+		"programs whose commands read standard input x 7 kinds of Config.Stdin x {Background, TODO, WithCancel, WithTimeout(1h)}; error " +
+		"identity: 17 kinds of secondary error (run-time errors, killed commands, Config.Output / Config.Stdin failing once cancelled) x 9 " +
+		"places; non-trivial = the context was cancelled while the program was running")
 
 	tmpDir, err := os.MkdirTemp("", "c15f")
 	if err != nil {
@@ -555,9 +563,9 @@ func runC15(c *vh.Ctx) {
 	{
 		kinds := []string{"shared:A", "shared:B", "bg", "none"}
 		type call struct {
-			cs      c15Case
-			expect  string // cancelled | normal
-			res     c15Res
+			cs     c15Case
+			expect string // cancelled | normal
+			res    c15Res
 		}
 		type seq3 struct {
 			prog  int
